@@ -76,7 +76,8 @@ func c10Observe(r *fw.Rand, ops []string, live map[string]bool, all bool) []stri
 	}
 	ops = append(ops, "series", "meas")
 	m := c10Meas[r.Intn(len(c10Meas))]
-	ops = append(ops, "tagkeys "+m, "tagvals "+m+" host")
+	// (tag keys are not part of the property's listing clause)
+	ops = append(ops, "tagvals "+m+" host")
 	if r.Intn(2) == 0 {
 		ops = append(ops, "tagvals "+m+" region")
 	}
